@@ -296,6 +296,16 @@ def _spell(r, prog, style):
                     s = repr(a)
             elif style == 'dot' and abs(a) < 1 and a != 0 and repr(a).lstrip('-').startswith('0.'):
                 s = repr(a).replace('0.', '.', 1)
+            elif style == 'dotexp' and a != 0 and r.random() < 0.7:
+                # leading dot AND exponent: 5.0 -> ".5e1", -25.0 -> "-.25E+2", 0.003 -> ".3e-2"
+                from decimal import Decimal
+                d = Decimal(repr(a))
+                sign, digits, exp = d.as_tuple()
+                digits = ''.join(map(str, digits)).rstrip('0') or '0'
+                k = len(''.join(map(str, d.as_tuple().digits))) + exp
+                s = ('-' if sign else '') + '.' + digits + r.choice(['e', 'E']) + r.choice(['', '+'] if k >= 0 else ['']) + str(k)
+                if float(s) != a:
+                    s = repr(a)
             elif a == int(a) and abs(a) < 1e15:
                 s = str(int(a))
             else:
@@ -386,7 +396,7 @@ def sample(ctx, budget=1.0, hint=None, broken=None):
                 args = [fnum() for _ in range(ARITY[l.upper()])]
             prog.append((None if implicit else l, args))
             prev = l
-        style = r.choice(['plain', 'comma', 'commaspace', 'spaces', 'sign', 'exp', 'dot'])
+        style = r.choice(['plain', 'comma', 'commaspace', 'spaces', 'sign', 'exp', 'dot', 'dotexp'])
         d = _spell(r, prog, style)
         d0 = _spell(r, prog, 'plain')
         n_eval += 1
@@ -434,7 +444,7 @@ def sample(ctx, budget=1.0, hint=None, broken=None):
                  'exception or wrong segments', 'one Arc', 'svgpathtools.parse_path(%r)' % d)
     return {'evaluations': n_eval, 'distinct_nontrivial': len(nontriv), 'failures': fails, 'samples': samples,
             'rule': 'random programs over the 20 letters (1..10 commands after the moveto, implicit repetitions, relative arcs ending on the current point, zero radii), '
-                    'number classes int/half/tiny/huge/mixed, spellings plain/comma/comma+spaces/multi-space/sign-as-separator/exponent/leading-dot; '
+                    'number classes int/half/tiny/huge/mixed, spellings plain/comma/comma+spaces/multi-space/sign-as-separator/exponent/leading-dot/leading-dot-with-exponent; '
                     'compared with an independent reference interpreter of the SVG path grammar. distinct = distinct (number class, spelling, letter set)'}
 
 
